@@ -454,6 +454,47 @@ fn orderings(ctx: &Ctx) {
     }
 }
 
+/// Atomic store/load on slices whose base address is not aligned: the decision must follow the
+/// address that is accessed (base + offset), not the offset.
+fn atomic_alignment(ctx: &Ctx) {
+    let mut backing = vec![0u8; 64];
+    let base = backing.as_mut_ptr();
+    let a0 = (16 - base as usize % 16) % 16;
+    for mis in 0..8usize {
+        // SAFETY: inside backing
+        let vs = unsafe { VolatileSlice::new(base.add(a0 + mis), 32) };
+        let p = base as usize + a0 + mis;
+        for off in 0..=16usize {
+            macro_rules! at {
+                ($t:ty, $v:expr) => {{
+                    ctx.case(true);
+                    let al = (p + off) % std::mem::size_of::<$t>() == 0;
+                    let describe = || (format!("C06/atomic-alignment/{}", stringify!($t)), format!("base%8={} offset {}", mis, off), json!({"type": stringify!($t), "base_mod_8": mis, "offset": off}));
+                    let r = crate::crash::guarded(ctx, &describe, || {
+                        let s = vs.store::<$t>($v, off, Ordering::SeqCst).is_ok();
+                        let l = vs.load::<$t>(off, Ordering::SeqCst).ok();
+                        (s, l)
+                    });
+                    if let Some((s, l)) = r {
+                        let ok = if al { s && l == Some($v) } else { !s && l.is_none() };
+                        if !ok {
+                            ctx.fail(&format!("C06/atomic-alignment/{}/{}", stringify!($t), if al { "aligned-address-refused" } else { "misaligned-address-accepted" }), &format!("slice base%8={} offset {} (address%{}={}): store ok={} load={:?}", mis, off, std::mem::size_of::<$t>(), (p + off) % std::mem::size_of::<$t>(), s, l), describe().2);
+                        }
+                    }
+                }};
+            }
+            at!(u8, 0x5a);
+            at!(u16, 0xbeef);
+            at!(u32, 0xdead_beef);
+            at!(u64, 0x0123_4567_89ab_cdef);
+            at!(i16, -2);
+            at!(i32, -3);
+            at!(i64, -4);
+            at!(usize, 77);
+        }
+    }
+}
+
 /// All interleavings of a writer flipping a value and a reader, at primitive-access granularity.
 fn schedules(ctx: &Ctx) {
     #[derive(Clone, Copy, Debug)]
@@ -604,6 +645,7 @@ pub fn run(tier: Tier, replay: Option<String>) -> i32 {
     crate::crash::guarded(&ctx, &describe, || slice_classes(&ctx));
     crate::crash::guarded(&ctx, &describe, || object_classes(&ctx));
     orderings(&ctx);
+    atomic_alignment(&ctx);
     schedules(&ctx);
     ctx.set_exhaustive(true);
     ctx.finish()
